@@ -265,7 +265,13 @@ def run_affinity(acc, shard):
                     if k != eligible:
                         mech = "affinity_empty_list_not_all_eligible"
                         if prev != eligible:
-                            mech += ":after_narrowing"
+                            # the code reads the "eligible" CPUs from Cpus_allowed_list - the *current* affinity - but only
+                            # understands a list that starts with a range "N-M": that is the recorded finding. A single CPU
+                            # or a list starting "N,M" makes it fall back to all CPUs, which is right
+                            if len(prev) >= 2 and prev[1] == prev[0] + 1:
+                                mech += ":after_narrowing"
+                            else:
+                                mech += ":after_pinning_to_a_list_without_leading_range"
                         viols.append((mech, f"cpu_affinity([]) after {prev}: kernel {k}, eligible {eligible}"))
                 acc.case(case, prev != eligible, viols, key=harness.chash(["aff_empty", prev]))
         hi = max(eligible) + 1
@@ -425,7 +431,57 @@ def plan(tier, seed):
     shards.append(dict(kind="affinity", seed=seed, part=0, nrand=100, flavour="asan"))
     if tier == "thorough":
         shards.append(dict(kind="rlimit", flavour="asan"))
+    for n in ((65, 1024) if tier == "quick" else (65, 128, 256, 1024, 4096, 65536)):
+        shards.append(dict(kind="bigcpu", bigcpu=n, flavour="asan" if n in (1024, 256) else None))
     return shards
+
+
+def shard_env(shard):
+    """bigcpu shards run with an interposer that makes sched_getaffinity() refuse short buffers like a many-CPU kernel."""
+    if shard.get("kind") == "cases" and shard.get("cases") and shard["cases"][0].get("kind") == "affinity_bigcpu":
+        shard = dict(shard, bigcpu=shard["cases"][0]["possible"])
+    if not shard.get("bigcpu"):
+        return {}
+    from vlib import livereuse, overlay
+    so = livereuse.ensure_shared("bigcpu")
+    if so is None:
+        return {"BIGCPU_UNAVAILABLE": "1"}
+    pre = so
+    if (shard.get("flavour") or "").startswith("asan"):
+        pre = overlay.ASAN_RT + ":" + so
+    return {"LD_PRELOAD": pre, "BIGCPU_POSSIBLE": str(shard["bigcpu"])}
+
+
+def run_bigcpu(acc, shard):
+    """The getter's grow-and-retry loop is never taken on a 16-CPU machine: here the C library refuses buffers shorter than
+    BIGCPU_POSSIBLE bits, as a kernel with that many possible CPUs does."""
+    if os.environ.get("BIGCPU_UNAVAILABLE"):
+        acc.count("bigcpu_skipped")
+        return
+    c = Ctx(acc)
+    try:
+        eligible = sorted(os.sched_getaffinity(c.sibling.pid))
+        sets = [eligible, eligible[:1], eligible[-1:], eligible[::2], eligible[1:4]]
+        for cpus in sets:
+            case = dict(kind="affinity_bigcpu", possible=shard["bigcpu"], cpus=cpus)
+            harness.mark_current(case)
+            viols = []
+            try:
+                c.p.cpu_affinity(cpus)
+                got = c.p.cpu_affinity()
+                own = c.ps.Process().cpu_affinity()
+            except Exception as e:  # noqa: BLE001
+                viols.append((f"affinity_get_raised:{type(e).__name__}:many_possible_cpus",
+                              f"kernel with {shard['bigcpu']} possible CPUs: cpu_affinity({cpus}) then get -> {e!r}"))
+            else:
+                k = sorted(os.sched_getaffinity(c.target.pid))
+                acc.count("kernel_readbacks")
+                acc.count("bigcpu_gets_checked")
+                if got != sorted(set(cpus)) or k != sorted(set(cpus)) or own != sorted(os.sched_getaffinity(0)):
+                    viols.append(("affinity_readback_wrong:many_possible_cpus", f"possible={shard['bigcpu']}: set {cpus} psutil {got} kernel {k}"))
+            acc.case(case, True, viols)
+    finally:
+        c.close()
 
 
 def on_worker_death(r):
@@ -453,6 +509,8 @@ def run_shard(shard):
     elif k == "sinks":
         run_sinks(acc)
         acc.exhaustive = True
+    elif k == "bigcpu":
+        run_bigcpu(acc, shard)
     elif k == "cases":
         for case in shard["cases"]:
             kind = case.get("kind", "")
@@ -462,6 +520,8 @@ def run_shard(shard):
                 run_nice(acc, [case["value"]])
             elif kind.startswith("ionice"):
                 run_ionice(acc)
+            elif kind == "affinity_bigcpu":
+                run_bigcpu(acc, dict(bigcpu=case["possible"]))
             elif kind.startswith("affinity"):
                 run_affinity(acc, dict(seed=0, part=0, nrand=20))
             elif kind.startswith("rlimit"):
